@@ -478,6 +478,31 @@ def m_brentq(ex, st, args, kwargs, node):
     return r
 
 
+INTERP = z3.Function("INTERP1D", z3.IntSort(), z3.RealSort(), z3.RealSort())  # (interpolant id, x) -> value
+
+
+def m_interp1d(ex, st, args, kwargs, node):
+    """scipy.interpolate.interp1d(x, y, kind=..., fill_value=...): assumed contract - an object with .x, .y holding the data and
+    (A-NODE) f(x_k) == y_k at every node when the abscissae are strictly increasing; nothing else about its values."""
+    x, y = args[0], args[1]
+    used(ex, "scipy.interpolate.interp1d: object with .x/.y = the data; f(x_k) = y_k at the nodes (strictly increasing x); other values uninterpreted")
+    xs = x if isinstance(x, PyList) else PyList(ex.iter_seq(x, st, node))
+    ys = y if isinstance(y, PyList) else PyList(ex.iter_seq(y, st, node))
+    nx, ny = xs.length(), ys.length()
+    if isinstance(nx, int) and isinstance(ny, int):
+        if nx != ny:
+            ex.safety(st, "interp1d-shape", False, node)
+    else:
+        ex.safety(st, "interp1d-shape", to_z3(nx) == to_z3(ny), node)
+    fid = z3.Int(uid("interp"))
+    k = z3.Int(uid("k"))
+    xk, yk = to_real(xs.get(k)), to_real(ys.get(k))
+    st.pc.append(_forall_pats([k], z3.Implies(z3.And(k >= 0, k < to_z3(nx)), INTERP(fid, xk) == yk), [[xk], [yk]]))
+    xa = PyList(xs.v if not xs.is_conc() else list(xs.v), np=True)
+    ya = PyList(ys.v if not ys.is_conc() else list(ys.v), np=True)
+    return UFun("interp1d", lambda v: INTERP(fid, to_real(v)), attrs={"x": xa, "y": ya, "id": fid})
+
+
 def b_all(ex, st, args, kwargs, node, is_all=True):
     s = ex.iter_seq(args[0], st, node)
     if not isinstance(s.length, int):
@@ -1198,6 +1223,7 @@ _TABLE = {
     "numpy.arange": n_arange, "numpy.zeros": n_zeros, "numpy.sqrt": m_sqrt, "numpy.exp": m_exp,
     "warnings.warn": b_print,
     "scipy.optimize.brentq": m_brentq,
+    "scipy.interpolate.interp1d": m_interp1d,
     "all": b_all, "any": lambda ex, st, args, kwargs, node: b_all(ex, st, args, kwargs, node, is_all=False),
     "hasattr": b_hasattr,
     "datetime.datetime": None,
